@@ -92,6 +92,11 @@ pub struct Case {
     pub enc: Encoding,
     pub layout: Layout,
     pub reverse_visit: bool,
+    /// renumbering of the finished glyph list (references follow): None = construction order
+    /// (components always have lower ids than their parents, glyph 0 is never a composite);
+    /// Some(r): r even = reversed order (the outermost composite becomes glyph 0, every component id
+    /// is higher than its parent's), r odd = rotation by `pick(n, r)`
+    pub renumber: Option<u32>,
 }
 
 // ------------------------------------------------------------------------------------ strategies
@@ -272,8 +277,9 @@ pub fn case_strategy() -> impl Strategy<Value = Case> {
         encoding(),
         layout(),
         any::<bool>(),
+        proptest::option::weighted(0.4, any::<u32>()),
     )
-        .prop_map(|(simples, empty_at, composites, special, enc, layout, reverse_visit)| Case {
+        .prop_map(|(simples, empty_at, composites, special, enc, layout, reverse_visit, renumber)| Case {
             simples,
             empty_at,
             composites,
@@ -281,6 +287,7 @@ pub fn case_strategy() -> impl Strategy<Value = Case> {
             enc,
             layout,
             reverse_visit,
+            renumber,
         })
 }
 
@@ -294,8 +301,9 @@ pub fn chain_strategy() -> impl Strategy<Value = Case> {
         encoding(),
         layout(),
         any::<bool>(),
+        proptest::option::weighted(0.4, any::<u32>()),
     )
-        .prop_map(|(leaf, mut composites, special, enc, layout, reverse_visit)| {
+        .prop_map(|(leaf, mut composites, special, enc, layout, reverse_visit, renumber)| {
             for c in composites.iter_mut() {
                 c.components[0].chain = true;
                 // the chain link itself is always compared: plain offset, comparable flags
@@ -313,6 +321,7 @@ pub fn chain_strategy() -> impl Strategy<Value = Case> {
                 enc,
                 layout,
                 reverse_visit,
+                renumber,
             }
         })
 }
@@ -416,6 +425,28 @@ pub fn build_glyphs(case: &Case) -> Vec<Glyph> {
                 }
             }
         }
+    }
+    if let Some(r) = case.renumber {
+        // new id of old glyph i
+        let map = |i: usize| -> usize {
+            if r % 2 == 0 {
+                n - 1 - i
+            } else {
+                (i + pick(n, r)) % n
+            }
+        };
+        let mut out: Vec<Option<Glyph>> = (0..n).map(|_| None).collect();
+        for (i, mut g) in glyphs.into_iter().enumerate() {
+            if let Glyph::Composite(c) = &mut g {
+                for k in c.components.iter_mut() {
+                    if (k.glyph as usize) < n {
+                        k.glyph = map(k.glyph as usize) as u16;
+                    }
+                }
+            }
+            out[map(i)] = Some(g);
+        }
+        return out.into_iter().map(|g| g.expect("renumbering is a permutation")).collect();
     }
     glyphs
 }
@@ -900,6 +931,14 @@ pub fn check_glyphs(
 
 pub fn check_case(case: &Case, rec: &mut Rec) -> CaseResult {
     let glyphs = build_glyphs(case);
+    rec.class_if(matches!(glyphs.first(), Some(Glyph::Composite(_))), "glyph0:composite");
+    rec.class_if(
+        glyphs.iter().enumerate().any(|(i, g)| match g {
+            Glyph::Composite(c) => c.components.iter().any(|k| (k.glyph as usize) > i && (k.glyph as usize) < glyphs.len()),
+            _ => false,
+        }),
+        "component-id>parent-id",
+    );
     check_glyphs(&glyphs, &case.enc, &case.layout, case.reverse_visit, rec)
 }
 
